@@ -16,6 +16,7 @@ package schemaClient
 
 import (
 	"context"
+	"fmt"
 	"strings"
 	"sync"
 
@@ -132,7 +133,11 @@ func (scb *SchemaClientBoundImpl) ToPath(ctx context.Context, path []string) (*s
 			// adding the keys with the value from path[i], which is the key value
 			for _, k := range schemaKeys {
 				i++
-				newPathElem.Key[k.Name] = path[i]
+				// the path ends within the key values of the list
+				if i >= len(path) {
+					return nil, fmt.Errorf("path %v is incomplete, no value for key %s of %s", path, k.GetName(), newPathElem.Name)
+				}
+				newPathElem.Key[k.GetName()] = path[i]
 			}
 		}
 	}
